@@ -572,6 +572,8 @@ class Dict(dict, base.Symbolic, pg_typing.CustomTyping):
       new_value = self._formalized_value(key, field, value)
       super().__setitem__(key, new_value)
 
+    self._invalidate_content_cache()
+
     # NOTE(daiyip): If current dict is the field dict of a symbolic object,
     # Use parent object as update target.
     target = self
@@ -788,6 +790,7 @@ class Dict(dict, base.Symbolic, pg_typing.CustomTyping):
       raise base.WritePermissionError('Cannot pop item from a sealed Dict.')
     key, value = super().popitem()
     self._detach(value)
+    self._invalidate_content_cache()
     return key, value
 
   def clear(self) -> None:
@@ -799,6 +802,7 @@ class Dict(dict, base.Symbolic, pg_typing.CustomTyping):
     for value in self.sym_values():
       self._detach(value)
     super().clear()
+    self._invalidate_content_cache()
 
     if value_spec:
       self.use_value_spec(value_spec, self._allow_partial)
